@@ -42,23 +42,24 @@ type Violation struct {
 
 // partial is what a child process hands back to its parent.
 type partial struct {
-	Evals      int64            `json:"evals"`
-	Nontrivial []uint64         `json:"nontrivial"`
-	NTOverflow int64            `json:"nt_overflow"`
-	Samples    []interface{}    `json:"samples"`
-	Counters   map[string]int64 `json:"counters"`
-	Maxes      map[string]int64 `json:"maxes"`
+	Evals      int64               `json:"evals"`
+	Nontrivial []uint64            `json:"nontrivial"`
+	NTOverflow int64               `json:"nt_overflow"`
+	Samples    []interface{}       `json:"samples"`
+	Counters   map[string]int64    `json:"counters"`
+	Maxes      map[string]int64    `json:"maxes"`
 	Sets       map[string][]string `json:"sets"`
-	Violations []Violation      `json:"violations"`
-	Inconcl    []string         `json:"inconclusive"`
-	Done       bool             `json:"done"`
+	Violations []Violation         `json:"violations"`
+	Inconcl    []string            `json:"inconclusive"`
+	Done       bool                `json:"done"`
 }
 
 type Run struct {
-	Prop  string
-	Tier  string
-	Seed  int64
-	Level string
+	scratch string
+	Prop    string
+	Tier    string
+	Seed    int64
+	Level   string
 
 	mu         sync.Mutex
 	evals      int64
@@ -78,12 +79,12 @@ type Run struct {
 	known      map[string]string // key -> what
 
 	// child mode
-	child     bool
-	childName string
-	childLo   int
-	childHi   int
-	childOut  string
-	progress  *os.File
+	child      bool
+	childName  string
+	childLo    int
+	childHi    int
+	childOut   string
+	progress   *os.File
 	exhaustive *bool
 }
 
@@ -117,6 +118,18 @@ func Start(prop, level string) *Run {
 			r.progress, _ = os.OpenFile(p[4], os.O_CREATE|os.O_WRONLY, 0644)
 		}
 	}
+	if !r.child {
+		// one scratch directory per run for everything temporary (children inherit it); removed in Finish
+		base := ""
+		if fi, err := os.Stat("/dev/shm"); err == nil && fi.IsDir() {
+			base = "/dev/shm"
+		}
+		if d, err := os.MkdirTemp(base, "verifrun"); err == nil {
+			r.scratch = d
+			os.Setenv("TMPDIR", d)
+			os.Setenv("VERIF_SCRATCH", d)
+		}
+	}
 	r.loadKnown()
 	return r
 }
@@ -137,8 +150,8 @@ func (r *Run) loadKnown() {
 	}
 }
 
-func (r *Run) Quick() bool    { return r.Tier != "thorough" }
-func (r *Run) IsChild() bool  { return r.child }
+func (r *Run) Quick() bool   { return r.Tier != "thorough" }
+func (r *Run) IsChild() bool { return r.child }
 func (r *Run) N(q, t int) int {
 	if r.Quick() {
 		return q
@@ -215,10 +228,10 @@ func (r *Run) Counter(name string) int64 {
 	return r.counters[name]
 }
 
-func (r *Run) SetRule(s string)           { r.rule = s }
-func (r *Run) Assume(s string)            { r.assume = append(r.assume, s) }
+func (r *Run) SetRule(s string)              { r.rule = s }
+func (r *Run) Assume(s string)               { r.assume = append(r.assume, s) }
 func (r *Run) Extra(k string, v interface{}) { r.mu.Lock(); r.extra[k] = v; r.mu.Unlock() }
-func (r *Run) Exhaustive(b bool)          { r.exhaustive = &b }
+func (r *Run) Exhaustive(b bool)             { r.exhaustive = &b }
 
 // Violation records a refutation of the property. key identifies the failing
 // input class / call site / history shape (used for known findings and for
@@ -254,16 +267,16 @@ func (c *Case) Violation(key, what string, witness interface{}) {
 }
 
 type Opts struct {
-	Procs          int  // >0: run in that many child processes (crash isolation); 0: in this process
-	Workers        int  // goroutines per process (default 1)
-	StallSec       int  // watchdog: no progress for that long => SIGQUIT (default 300)
+	Procs           int  // >0: run in that many child processes (crash isolation); 0: in this process
+	Workers         int  // goroutines per process (default 1)
+	StallSec        int  // watchdog: no progress for that long => SIGQUIT (default 300)
 	HangIsViolation bool // a stalled child is a violation (C10/C18) instead of inconclusive
-	Race           bool // use the -race binary for the children
-	MemMB          int  // ulimit -v for children (0 = none)
+	Race            bool // use the -race binary for the children
+	MemMB           int  // ulimit -v for children (0 = none)
 	// InconclusiveFatal: a child death whose key contains one of these substrings is attributed to the test
 	// support code named there, not to the property (reported inconclusive, counted).
 	InconclusiveFatal []string
-	Env            []string
+	Env               []string
 }
 
 var goKardiaFrame = regexp.MustCompile(`github\.com/kardiachain/go-kardia/([^\s(]+(?:\([^)]*\))?[^\s(]*)`)
@@ -600,7 +613,7 @@ func (r *Run) Finish() {
 	}
 	cov := map[string]interface{}{
 		"evaluations":         r.evals,
-		"distinct_nontrivial": int64(len(r.nontrivial)) ,
+		"distinct_nontrivial": int64(len(r.nontrivial)),
 		"rule":                r.rule,
 		"samples":             r.samples,
 		"counters":            r.counters,
@@ -629,7 +642,7 @@ func (r *Run) Finish() {
 		"property_id": r.Prop, "tier": r.Tier, "seed": r.Seed, "level": r.Level, "coverage": cov,
 		"assumptions": nonNil(r.assume), "wall_s": time.Since(r.start).Seconds(), "violations": len(fresh),
 		"verdict": verdict(len(fresh), len(r.inconcl)),
-		"go": runtime.Version(),
+		"go":      runtime.Version(),
 	}
 	if !replayMode {
 		os.MkdirAll(filepath.Join(Root(), "evidence"), 0755)
@@ -651,6 +664,9 @@ func (r *Run) Finish() {
 		fmt.Fprintf(&sb, " #%s=%d", k, v)
 	}
 	fmt.Println("  observed:" + sb.String())
+	if r.scratch != "" {
+		os.RemoveAll(r.scratch)
+	}
 	switch {
 	case len(fresh) > 0:
 		os.Exit(1)
